@@ -15,6 +15,7 @@
 //     D[nefc] R[nefc] floss[nefc] jar[nefc] type[nefc] id[nefc] ncon {dim mu fr[5] adr}[ncon]      (jar = J qacc - aref)
 //     tbias                                                                                      (max |mj_tendonBias|)
 //     nisland noninv enableflags disableflags sparse nfree lowfree   (follow ds..anyd; nfree: dofs outside every island, lowfree: one of them below an island dof; noninv: the efc<->island permutation is not an involution)
+//     npt npf nsingle nother ptq nqa   (last: bodies with pure torque / pure force / single component / other wrench; max |J' pure torques|; non-zero qfrc_applied entries)
 //     ds jnt_m2 jnt_single anyd         (damping-source stratum; joints with jnt_actuatorid == -2 / >= 0; any joint damping left)
 //   xfrc_q is computed here from mj_jac at the body centre of mass (not by mj_xfrcAccumulate).
 #include <stdio.h>
@@ -210,6 +211,28 @@ int main(int argc, char** argv) {
     mjtNum* jacp = malloc(sizeof(mjtNum) * 3 * (nv + 1));
     mjtNum* jacr = malloc(sizeof(mjtNum) * 3 * (nv + 1));
     mjg_random_state(m, d, &r, 0.5);
+    // applied-force stratum: the support of the Cartesian wrenches xfrc_applied and of qfrc_applied.
+    //   ws = seed % 5: 0 as generated (at most one body, all six components)   1 pure torques   2 pure forces
+    //                  3 a single non-zero component per body                 4 a random kind per body (none / force / torque / single / full)
+    //   qs = (seed / 5) % 3: 0 as generated   1 qfrc_applied = 0   2 qfrc_applied on one dof only
+    {
+      mjg_rng rw = {(uint64_t)seed * 0xC2B2AE3D27D4EB4FULL + 17};
+      int ws = seed % 5, qs = (seed / 5) % 3;
+      if (ws > 0 && m->nbody > 1) {
+        mju_zero(d->xfrc_applied, 6 * m->nbody);
+        for (int b = 1; b < m->nbody; b++) {
+          if (b != 1 && b != m->nbody - 1 && !mjg_chance(&rw, 0.5)) continue;
+          int kind = ws == 4 ? mjg_int(&rw, 5) : ws;          // 0 none, 1 torque, 2 force, 3 single, 4 full
+          mjtNum* x = d->xfrc_applied + 6 * b;
+          if (kind == 1) for (int k = 3; k < 6; k++) x[k] = mjg_range(&rw, -1, 1);
+          else if (kind == 2) for (int k = 0; k < 3; k++) x[k] = mjg_range(&rw, -1, 1);
+          else if (kind == 3) x[mjg_int(&rw, 6)] = mjg_range(&rw, 0.2, 1) * (mjg_chance(&rw, 0.5) ? 1 : -1);
+          else if (kind == 4) for (int k = 0; k < 6; k++) x[k] = mjg_range(&rw, -1, 1);
+        }
+      }
+      if (qs == 1) mju_zero(d->qfrc_applied, m->nv);
+      else if (qs == 2 && m->nv > 0) { mju_zero(d->qfrc_applied, m->nv); d->qfrc_applied[mjg_int(&rw, m->nv)] = mjg_range(&rw, -1, 1); }
+    }
     if (MJG_TRY) {
       int done = 0;
       for (int step = 0; step <= 20 && done < 2; step++) {
@@ -311,6 +334,27 @@ int main(int argc, char** argv) {
             nfree = nv - w->nidof; lowfree = nfree > 0 && minfree < maxisl;
           }
           printf(" %d %d", nfree, lowfree);
+        }
+        // J: support of the applied wrenches: bodies with a pure torque / pure force / single component / other non-zero wrench, and the size of
+        //    the joint-space image of the pure torques alone (computed with mj_jac)
+        {
+          int npt = 0, npf = 0, nsingle = 0, nother = 0; mjtNum ptq = 0;
+          mjtNum* tq = calloc(nv + 1, sizeof(mjtNum));
+          for (int b = 1; b < m->nbody; b++) {
+            const mjtNum* x = w->xfrc_applied + 6 * b;
+            int nzf = (x[0] != 0) + (x[1] != 0) + (x[2] != 0), nzt = (x[3] != 0) + (x[4] != 0) + (x[5] != 0);
+            if (nzf + nzt == 0) continue;
+            if (nzf + nzt == 1) nsingle++;
+            if (nzf == 0) {
+              npt++;
+              mj_jac(m, w, jacp, jacr, w->xipos + 3 * b, b);
+              for (int k = 0; k < nv; k++) for (int c = 0; c < 3; c++) tq[k] += jacr[c * nv + k] * x[3 + c];
+            } else if (nzt == 0) npf++; else nother++;
+          }
+          for (int k = 0; k < nv; k++) ptq = mjMAX(ptq, mju_abs(tq[k]));
+          int nqa = 0; for (int k = 0; k < nv; k++) nqa += w->qfrc_applied[k] != 0;
+          printf(" %d %d %d %d %a %d", npt, npf, nsingle, nother, ptq, nqa);
+          free(tq);
         }
         printf("\n");
         done++;
